@@ -41,7 +41,7 @@ COMPILERS = ["fock", "gaussian", "bosonic"]
 MESHES = ["rectangular", "rectangular_phase_end", "rectangular_symmetric", "triangular", "rectangular_compact",
           "triangular_compact", "sun_compact"]
 UKINDS = ["haar", "haar", "identity", "identity_c", "antiidentity", "perm", "perm_real", "perm_phase", "diag_phase",
-          "diag_pm", "block", "block_perm", "givens2", "real_orth"]
+          "diag_pm", "block", "block_perm", "givens2", "real_orth", "near_identity"]
 
 
 def unitary(rs, n, kind):
@@ -49,6 +49,12 @@ def unitary(rs, n, kind):
         return d17.givens_product(rs, n, 2) if n >= 2 else np.identity(1, dtype=complex)
     if kind == "real_orth":
         return d17.rand_orth(rs, n).astype(complex)
+    if kind == "near_identity":     # exp(i eps H) around the tolerance of the `identity` shortcut (1e-13) and well above it
+        from scipy.linalg import expm
+        H = rs.standard_normal((n, n)) + 1j * rs.standard_normal((n, n))
+        H = (H + H.conj().T) / 2
+        eps = float(rs.choice([3e-14, 3e-13, 1e-11, 1e-9, 1e-6, 1e-4]))
+        return expm(1j * eps * H)
     U = d17.unitary_case(rs, n, kind)
     return np.asarray(U)
 
@@ -583,6 +589,11 @@ def interferometer_case(ctx, sf, U, mesh, drop, regidx, big, rp, run_backend=Fal
         W = dec02.circuit_unitary(cmds, m, pos)
         err = float(np.max(np.abs(W - U)))
         if err > 1e-8:
+            if mesh == "sun_compact" and rp.get("ukind") == "near_identity" and err < 1e-5:
+                # the factorisation takes its structural shortcuts at the unitarity tolerance it is handed (1e-6)
+                ctx.fail("interferometer:sun_compact:near-identity:shortcuts-at-unitarity-tolerance",
+                         f"sun_compact on exp(i eps H): emitted circuit differs from U by {err:.3g}", rp)
+                return
             ctx.fail(f"interferometer:{mesh}:drop={drop}:{label}-circuit-is-not-U",
                      f"mesh={mesh} drop_identity={drop} size {m} targets {regidx}: the {label} circuit implements a unitary "
                      f"differing from U by {err:.3g}", rp)
@@ -601,13 +612,13 @@ def oracle_interferometer(ctx, sf):
     for mesh in MESHES:
         for drop in (True, False):
             for m in range(3 if mesh == "sun_compact" else 2, 7):
-                kinds = UKINDS if ctx.tier != "quick" else [UKINDS[(it + j) % len(UKINDS)] for j in range(0, 12, 3)]
+                kinds = UKINDS if ctx.tier != "quick" else [UKINDS[(it + j) % len(UKINDS)] for j in range(0, 12, 3)] + ["near_identity"]
                 for kind in kinds:
                     it += 1
                     U = unitary(rs, m, kind)
                     big = m + (it % 2)
                     regidx = rng.sample(range(big), m)
-                    rp = dict(kind="interferometer", U=dec02.enc(U), mesh=mesh, drop=drop, reg=regidx, big=big)
+                    rp = dict(kind="interferometer", U=dec02.enc(U), mesh=mesh, drop=drop, reg=regidx, big=big, ukind=kind)
                     ctx.count(f"interferometer:{mesh}:drop={drop}", dict(m=mesh, d=drop, k=kind, n=m, it=it),
                               kind not in ("identity", "identity_c"),
                               sample=dict(mesh=mesh, drop_identity=drop, size=m, ukind=kind, targets=regidx))
